@@ -107,7 +107,7 @@ def accept_harness(T, lbw, lbh, cbw, cbh, name):
         }
     }
 ''' % dict(name=name, T=T, ln=ln, cn=cn, lbw=lbw, lbh=lbh, cbw=cbw, cbh=cbh, data_clause=data_clause,
-           unw=max(ln, cn) + 2)
+           unw=max(ln, cn) * (2 if T == 'u16' else 1) + 2)
 
 
 def decode_harness(T, ssx, ssy, w, h, name, bd, symbolic_content, pointwise):
@@ -157,7 +157,7 @@ def decode_harness(T, ssx, ssy, w, h, name, bd, symbolic_content, pointwise):
         }
     }
 ''' % dict(name=name, T=T, bufs=bufs, ln=ln, cn=cn, lbw=lbw, cbw=cbw, cbh=cbh, w=w, h=h, ssx=ssx, ssy=ssy, bd=bd,
-           pw=pw, unw=max(ln, cn, w * h) + 2)
+           pw=pw, unw=max(max(ln, cn) * (2 if (T == 'u16' and pointwise) else 1), w * h) + 2)
 
 
 def decode_rules(w, h):
